@@ -127,15 +127,15 @@ class LazyMap(object):
 
 
 class Ctx(object):
-    __slots__ = ('next', 'ret', 'exc', 'brk', 'cont', 'cur_exc', 'cur_exc_name')
+    __slots__ = ('next', 'ret', 'exc', 'brk', 'cont', 'cur_exc', 'cur_exc_name', 'cur_handler')
 
-    def __init__(self, next, ret, exc, brk=None, cont=None, cur_exc=None, cur_exc_name=None):
+    def __init__(self, next, ret, exc, brk=None, cont=None, cur_exc=None, cur_exc_name=None, cur_handler=None):
         self.next, self.ret, self.exc, self.brk, self.cont = next, ret, exc, brk, cont
-        self.cur_exc, self.cur_exc_name = cur_exc, cur_exc_name
+        self.cur_exc, self.cur_exc_name, self.cur_handler = cur_exc, cur_exc_name, cur_handler
 
     def w(self, **kw):
         d = dict(next=self.next, ret=self.ret, exc=self.exc, brk=self.brk, cont=self.cont, cur_exc=self.cur_exc,
-                 cur_exc_name=self.cur_exc_name)
+                 cur_exc_name=self.cur_exc_name, cur_handler=self.cur_handler)
         d.update(kw)
         return Ctx(**d)
 
@@ -660,7 +660,7 @@ class Builder(object):
             a = ctx.cur_exc
             if a is None:
                 raise AnalysisError('bare raise outside handler at %s:%s' % (frame.func.file, s.lineno))
-            n = self.node('raise', s, frame, atoms=(a,), what='re-raise', reraise=True)
+            n = self.node('raise', s, frame, atoms=(a,), what='re-raise', reraise=True, handler=ctx.cur_handler)
             n.edge('exc:' + a, ctx.exc[a])
             return n
         from .exc import last_name
@@ -675,7 +675,8 @@ class Builder(object):
         else:
             # raise <value of unknown class> (e.g. a recorded exception object)
             atoms = sorted(self.excm.under_exception)
-        n = self.node('raise', s, frame, atoms=tuple(atoms), what='raise ' + norm(s.exc), reraise=reraise)
+        n = self.node('raise', s, frame, atoms=tuple(atoms), what='raise ' + norm(s.exc), reraise=reraise,
+                      handler=ctx.cur_handler if reraise else None)
         for a in atoms:
             n.edge('exc:' + a, ctx.exc[a])
         return self.expr(s.exc, ctx.w(next=n), frame)
@@ -725,8 +726,11 @@ class Builder(object):
                 if cont_node is None:
                     return None
                 if tag not in memo:
-                    mark = self.node('join', s, frame, what='finally(%s)' % tag, finally_tag=tag)
-                    mark.edge('next', self.block(s.finalbody, outer.w(next=cont_node), frame))
+                    fkey = (frame.id, id(s), tag)
+                    mark = self.node('join', s, frame, what='finally(%s)' % tag, finally_tag=tag, fkey=fkey)
+                    end = self.node('join', s, frame, what='end-finally(%s)' % tag, finally_end=tag, fkey=fkey)
+                    end.edge(tag if tag.startswith('exc:') else 'next', cont_node)
+                    mark.edge('next', self.block(s.finalbody, outer.w(next=end), frame))
                     memo[tag] = mark
                 return memo[tag]
             exc = LazyMap(lambda a: fin(outer.exc[a], 'exc:' + a))
@@ -744,8 +748,10 @@ class Builder(object):
                     if a in cs:
                         key = (id(h), a)
                         if key not in hmemo:
-                            hn = self.node('join', h, frame, what='handler', atom=a, handler=h, binds=h.name)
-                            hn.edge('next', self.block(h.body, hctx.w(cur_exc=a, cur_exc_name=h.name), frame))
+                            hn = self.node('join', h, frame, what='handler', atom=a, handler=h, binds=h.name,
+                                           hkey=(frame.id, id(h)))
+                            hn.edge('next', self.block(h.body, hctx.w(cur_exc=a, cur_exc_name=h.name,
+                                                                      cur_handler=(frame.id, id(h))), frame))
                             hmemo[key] = hn
                         return hmemo[key]
                 return hctx.exc[a]
